@@ -172,3 +172,9 @@ package cedar
 //@ frameclean C19 Authorize (PolicySet)IsAuthorized (PolicySet)Get (PolicySet)Map (PolicySet)All (PolicySet)MarshalCedar (PolicySet)MarshalJSON
 //@ frameclean C19 (Policy)MarshalCedar (Policy)MarshalJSON (Policy)Annotations (Policy)Effect (Policy)Position (Policy)AST (PolicyList)MarshalCedar
 //@ noleak C19 (PolicySet)Map (Policy)Annotations
+
+// Decoding into an existing Policy replaces what the variable holds and never writes into the AST or
+// the evaluator an earlier decode installed: those are shared with every copy of the old value (a
+// PolicySet entry, the result of AST()), whose compiled evaluator would no longer match their AST
+// (C20: what a set authorizes with is what it holds; C19).
+//@ frameshallow C20 (*Policy)UnmarshalCedar (*Policy)UnmarshalJSON
